@@ -84,6 +84,9 @@ type taskCompletion struct {
 type restartNode struct {
 	pid      *PID
 	children []*restartNode
+	// restarts is the restart count at snapshot time: the shutdown embedded in a
+	// restart resets the PID's counters
+	restarts int64
 }
 
 // PID is the sole actor reference in GoAkt. It is location-transparent:
@@ -3564,7 +3567,7 @@ func (pid *PID) buildChildOptions(config *spawnConfig) []pidOption {
 }
 
 func buildRestartSubtree(root *PID, tree *tree) *restartNode {
-	rootNode := &restartNode{pid: root}
+	rootNode := &restartNode{pid: root, restarts: root.restartCount.Load()}
 	descendants := tree.descendants(root)
 	if len(descendants) == 0 {
 		return rootNode
@@ -3573,7 +3576,7 @@ func buildRestartSubtree(root *PID, tree *tree) *restartNode {
 	nodes := make(map[string]*restartNode, len(descendants))
 	for _, descendant := range descendants {
 		if descendant.IsRunning() || descendant.IsSuspended() {
-			nodes[descendant.ID()] = &restartNode{pid: descendant}
+			nodes[descendant.ID()] = &restartNode{pid: descendant, restarts: descendant.restartCount.Load()}
 		}
 	}
 	if len(nodes) == 0 {
@@ -3677,6 +3680,11 @@ func restartSubtree(ctx context.Context, node *restartNode, parent *PID, tree *t
 	pid.setState(suspendedState, false)
 	pid.startPassivation()
 
+	// the shutdown embedded in a restart wipes the counters: carry the restart
+	// count over so that it keeps counting across restarts
+	if pid.restartCount.Load() < node.restarts {
+		pid.restartCount.Store(node.restarts)
+	}
 	pid.restartCount.Inc()
 	pid.fireSystemMessage(ctx, new(PostStart))
 	if pid.eventsStream != nil {
